@@ -136,4 +136,10 @@ theorem Un.isolate_orphan (s : Store K E) (h : Mirror s) (u : K) :
     unAdj (Un.isolate s u).1 u = [] ∧ ∀ w, vals (unAdj (Un.isolate s u).1 w) u = [] :=
   Un.isolate_orphan' s h u
 
+/-- "try_connect ... otherwise fails and changes nothing", over two calls: whatever the first `try_connect` did,
+    a second one for the same pair (any value) is refused and leaves the store exactly as the first left it -/
+theorem Di.tryConnect_twice (s : Store K E) (u v : K) (e e' : E) :
+    Di.tryConnect (Di.tryConnect s u v e).1 u v e' = ((Di.tryConnect s u v e).1, .exists_) :=
+  Di.tryConnect_twice' s u v e e'
+
 end G
